@@ -328,6 +328,20 @@ func TwinModular() []Tagged {
 		mm.Types = append(mm.Types, md)
 		out = append(out, Tagged{fmt.Sprintf("twins:modular:spread=%v", spread), mm})
 	}
+	// origins whose names are prefixes of one another, continued by a character that sorts below '/' and below letters
+	// ('-', '.'): a comparison of joined "module/file/name" strings orders them differently from a component-wise one
+	origins := []struct{ mod, file string }{{"core", "f.fga"}, {"core-ext", "f.fga"}, {"core.x", "f.fga"}, {"core", "f.fga-2"}, {"core", "f"}, {"core/x", "f.fga"}, {"co", "re/f.fga"}}
+	mm := &ref.Model{Schema: "1.2", Types: []ref.TypeDef{{Name: "user", Module: "core", File: "f.fga"}}}
+	md := ref.TypeDef{Name: "doc", Module: "core", File: "f.fga"}
+	names := []string{"m", "b", "x", "a", "q", "c", "z", "d", "k", "e", "p", "f", "n", "g"}
+	for i, n := range names {
+		o := origins[i%len(origins)]
+		md.Rels = append(md.Rels, ref.Relation{Name: n, Rw: ref.T(), Restr: dUser, Module: o.mod, File: o.file})
+		mm.Types = append(mm.Types, ref.TypeDef{Name: "t" + n, Module: o.mod, File: o.file})
+		mm.Conds = append(mm.Conds, ref.Condition{Name: "c" + n, Module: o.mod, File: o.file, Params: []ref.Param{{Name: "x", Type: "int"}}, Expr: "x < 100"})
+	}
+	mm.Types = append(mm.Types, md)
+	out = append(out, Tagged{"twins:modular:prefix-origins", mm})
 	return out
 }
 
